@@ -200,6 +200,20 @@ theorem C02_sent_serialisable (d : PyVal) :
     · simp only [↓reduceIte]
       rw [error_v2 _ (by omega)]; simp [respHasJsonrpc, hasKeyStr, lookupStr]
 
+/-- The id of what is sent in place of a response the JSON library rejects: the response's own id when
+    that id can be rendered on its own, `null` otherwise — whatever kind of value the id is (an instance
+    of a class the translator built: `bytes`, `Decimal`, a date, …; a set; a tuple-keyed dictionary).
+    `_safe_jdumps` decides by a trial serialisation of the id, not by a test on its type (extracted
+    fact `safeJdumpsIdProbe`); together with `C02_sent_serialisable` the replacement can be sent. -/
+theorem C02_replaced_id (d : PyVal) (h : serialisable d = false) :
+    respId (sent d) = (if serialisable (respId d) then respId d else .none) := by
+  simp only [sent, h, Bool.false_eq_true, ↓reduceIte, replacement, keptId]
+  cases hj : respHasJsonrpc d
+  · simp only [Bool.false_eq_true, ↓reduceIte]
+    rw [error_v1 _ (by omega)]; simp [respId, lookupStr]
+  · simp only [↓reduceIte]
+    rw [error_v2 _ (by omega)]; simp [respId, lookupStr]
+
 /-- Which form an answered request gets: the 2.0 form exactly when the server is ≥ 2.0 *and* the request
     carries a `jsonrpc` member (a 1.0-style request on a 2.0 server is answered in 1.0 form). -/
 theorem C02_form_follows_request (s : Server) (e d : PyVal) (kvs : List (PyVal × PyVal)) (m : String) (p : PyVal)
@@ -264,6 +278,23 @@ example : (marshaledDispatch { cfg := {}, reg := exReg }
       ("params", .list [.int 1, .int 2])]))).1
     = .ok (.doc (.dict [(.str "id", .none), (.str "jsonrpc", .str "2.0"),
              (.str "error", .dict [(.str "code", .int (-32603)), (.str "message", .str msgSerialize)])])) := by
+  decide +kernel
+
+/- An id the class translator loaded as `bytes` (an instance for the model: it has no JSON form although
+   it is one of the library's "primitive" types), in 1.0 form inside a batch: only that response is
+   replaced, with a null id. -/
+example : (marshaledDispatch { cfg := { useJsonclass := true }, reg := exReg }
+    (.parsed (.list [
+      mkDict [("jsonrpc", .str "2.0"), ("id", .int 1), ("method", .str "add"), ("params", .list [.int 1, .int 2])],
+      mkDict [("id", .obj "bytes" [("hex", .str "")]), ("method", .str "nosuch")]]))).1
+    = .ok (.doc (.list [
+      .dict [(.str "result", .int 3), (.str "id", .int 1), (.str "jsonrpc", .str "2.0")],
+      .dict [(.str "result", .none), (.str "id", .none),
+             (.str "error", .dict [(.str "code", .int (-32603)), (.str "message", .str msgSerialize)])]])) := by
+  decide +kernel
+
+example : respId (sent (.dict [(.str "result", .int 3), (.str "id", .obj "bytes" [("hex", .str "6869")]), (.str "error", .none)]))
+    = .none := by
   decide +kernel
 
 private def exTupleKey : Callable :=
